@@ -671,6 +671,24 @@ impl RngWorld {
     }
 }
 
+extern "C" fn on_alarm(_sig: libc::c_int) {}
+
+/// Start / stop an interval timer that delivers SIGALRM (empty handler, no SA_RESTART) every 50 µs.
+fn signal_storm(on: bool) {
+    unsafe {
+        if on {
+            let mut sa: libc::sigaction = std::mem::zeroed();
+            sa.sa_sigaction = on_alarm as *const () as usize;
+            sa.sa_flags = 0;
+            libc::sigemptyset(&mut sa.sa_mask);
+            libc::sigaction(libc::SIGALRM, &sa, std::ptr::null_mut());
+        }
+        let iv = libc::timeval { tv_sec: 0, tv_usec: if on { 50 } else { 0 } };
+        let t = libc::itimerval { it_interval: iv, it_value: iv };
+        libc::setitimer(libc::ITIMER_REAL, &t, std::ptr::null_mut());
+    }
+}
+
 impl World for RngWorld {
     const NAME: &'static str = "rng";
     type Config = Config;
@@ -768,7 +786,18 @@ impl World for RngWorld {
             return;
         }
         let before = self.ledger.borrow().draws.len();
+        // real generator, plain configuration: every other call runs under a storm of signals
+        // (an interval timer firing every 50 µs with an empty handler): system calls are
+        // interrupted or return early with part of the work done
+        let storm = self.cfg.real && *arg % 2 == 0;
+        if storm {
+            signal_storm(true);
+            out.fault("signal_storm");
+        }
         let r = guarded(|| self.call(*ep, *arg));
+        if storm {
+            signal_storm(false);
+        }
         out.op();
         out.shape(&format!("C{}", ep));
         out.cell(&format!("{}|{}", info.name, if self.cfg.real { "real" } else { "seam" }));
@@ -859,6 +888,25 @@ impl World for RngWorld {
                 if part.iter().all(|b| *b == 0) {
                     out.violate("C11", "c11.nonzero", site(&[("entry", info.name), ("configuration", mode)]), format!("the {} 16 bytes of the {}-byte value returned by {} are all zero", what, n, info.name));
                 }
+            }
+        }
+        // large values: no 64 consecutive zero bytes anywhere (a request the OS served only in part)
+        if co.component.len() > 256 {
+            let mut run = 0usize;
+            let mut at: Option<usize> = None;
+            for (i, b) in co.component.iter().enumerate() {
+                if *b == 0 {
+                    run += 1;
+                    if run == 64 {
+                        at = Some(i + 1 - 64);
+                        break;
+                    }
+                } else {
+                    run = 0;
+                }
+            }
+            if let Some(off) = at {
+                out.violate("C11", "c11.nonzero", site(&[("entry", info.name), ("configuration", mode), ("what", "zero_run")]), format!("bytes {}..{} of the {}-byte value returned by {} are all zero (never randomised)", off, off + 64, co.component.len(), info.name));
             }
         }
         if co.component.len() >= 16 && co.component.iter().all(|b| *b == 0) {
